@@ -396,16 +396,31 @@ def output_job(fam, text, outputs, discover=False, limit=40, seed=0):
     for modname in ('reserv', 'wellbores', 'surfaceplant', 'economics'):
         m = getattr(base.snap, modname)
         for k, p in m._outputs.items():
-            if p.UnitType in cat and isinstance(p.value, (int, float, np.generic)) and not isinstance(p.value, bool):
+            scalar = isinstance(p.value, (int, float, np.generic)) and not isinstance(p.value, bool)
+            series = isinstance(p.value, (list, tuple, np.ndarray)) and len(p.value) > 0 and \
+                all(isinstance(x, (int, float, np.generic)) and not isinstance(x, bool) for x in list(p.value)[:3])
+            if p.UnitType in cat and (scalar or series):
                 for u in cat[p.UnitType]:
                     if u and u != p.CurrentUnits and u != p.PreferredUnits:
                         try:
                             U.convert(1.0, p.CurrentUnits, u)
                         except ValueError:
                             continue
-                        cands.append({'name': k, 'unit': u, 'cur': p.CurrentUnits, 'unit_type': p.UnitType})
+                        cands.append({'name': k, 'unit': u, 'cur': p.CurrentUnits, 'unit_type': p.UnitType, 'series': series})
     random.Random(f'{seed}:{fam}').shuffle(cands)
+    # half of the budget goes to series-valued outputs (their arrays may be shared with other outputs)
+    ser = [c for c in cands if c['series']]
+    sca = [c for c in cands if not c['series']]
+    seen_series = set()
+    ser1 = []
+    for c in ser:                       # every series output at least once before any repeats
+        if c['name'] not in seen_series:
+            seen_series.add(c['name'])
+            ser1.append(c)
+    ser = ser1 + [c for c in ser if c not in ser1]
+    cands = ser[:limit // 2] + sca[:limit - min(len(ser), limit // 2)]
     samples = []
+    tab0 = {t.title: t for t in T0}
     for o in cands[:limit]:
         wit = {'family': fam, 'output': o['name'], 'unit_type': o['unit_type'], 'from': o['cur'], 'to': o['unit']}
         r1 = runner.run_text(text + f'\nUnits:{o["name"]}, {o["unit"]}\n')
@@ -431,19 +446,44 @@ def output_job(fam, text, outputs, discover=False, limit=40, seed=0):
             else:
                 badl.append({'label': l1.label, 'base': f'{l0.text} {l0.unit}', 'with_directive': f'{l1.text} {l1.unit}',
                              'same_label': U.norm(l0.unit) == U.norm(l1.unit)})
-        mech = None
-        if badl:
-            b = badl[0]
+        # one violation record per offending line, keyed by (line label, requested output): a line of ANOTHER output that
+        # moves is a different mechanism from the requested output's own line keeping a stale label
+        for b in badl:
             if b['same_label']:
-                mech = 'C06/output-unit-directive-converts-value-but-keeps-old-label:' + b['label']
+                mech = 'C06/output-unit-directive-converts-value-but-keeps-old-label:' + b['label'] + '<-' + o['name']
             else:
-                mech = 'C06/output-unit-directive-line-value-not-by-conversion-factor:' + b['label']
-        mon.check('output-directive', not badl, mechanism=mech, detail=badl[:2], changed=changed[:4], **wit)
+                mech = 'C06/output-unit-directive-line-value-not-by-conversion-factor:' + b['label'] + '<-' + o['name']
+            mon.bad('output-directive', mechanism=mech, detail=b, changed=changed[:4], **wit)
+        if not badl:
+            mon.ok('output-directive')
+        # profile tables: a column either stays as printed or every cell moves by one common factor (the requested one)
+        try:
+            fac = U.convert(1.0, o['cur'], o['unit'])
+        except ValueError:
+            fac = None
+        for t1 in T1:
+            t0 = tab0.get(t1.title)
+            if t0 is None or len(t0.rows) != len(t1.rows) or not t0.rows:
+                continue
+            ncol = min(len(t0.rows[0]), len(t1.rows[0]))
+            moved = []
+            for ci in range(1, ncol):
+                c0 = [r[ci] for r in t0.rows if len(r) > ci]
+                c1 = [r[ci] for r in t1.rows if len(r) > ci]
+                if c0 != c1:
+                    moved.append(ci)
+            if len(moved) > 1:
+                mon.bad('output-directive-tables', mechanism='C06/output-unit-directive-moves-several-profile-columns:' + t1.title + '<-' + o['name'],
+                        table=t1.title, columns=moved, **wit)
+            else:
+                mon.ok('output-directive-tables')
         if not changed:
             mon.note('output-directive-no-visible-line')
         if len(samples) < 2:
             samples.append(wit)
-    return {'mon': mon.dump(), 'samples': samples, 'n': min(limit, len(cands))}
+    d = mon.dump()
+    d['viols'] = mon.viols[:400]          # per-line records: keep them all (the generic dump keeps 50)
+    return {'mon': d, 'samples': samples, 'n': min(limit, len(cands))}
 
 
 def replay(ctx, payload):
